@@ -22,6 +22,9 @@ CHECKS = {
  "C10": dict(technique="TLA+ spec (LocustStore.tla) model-checked over all interleavings of ingest / flush+compaction / query / evict; query and second ingestion placed at every named sync point of the real code (schedule replay); recorded multi-threaded traces validated against the spec with TLC",
              text="TLC explores every interleaving at action granularity (ContentOK also half-way through an ingestion, SnapshotIsPrefix, NoFailure), reproduces the one known finding and rejects the evict-before-persist mutant. Binding B3 parks the flush / ingest / query thread at each of 21 sync points and runs the other operation exactly there (330 placements: 5 query kinds, with/without restart and second ingestion), checking the answer is a whole-request prefix, that the ingestion lock blocks exactly where the spec says and that everything completes. Binding B2 records randomised multi-threaded runs and validates every event, in particular every snapshot composition, against the spec.",
              note="windows without a sync label are reached only by the randomised driver; model bounds 1 table / 2 requests / 2 flushes; KF3 is a recorded known finding", ref="5 C10, 4.3, 4.4"),
+ "C11": dict(technique="TLA+ spec (Scheduler.tla: task queue, workers, answer hand-over) model-checked with TLC incl. liveness; TLC-emitted request histories replayed against the real database under deadlines with a canary",
+             text="TLC checks AnswerAtMostOnce, NoLostWakeup and, under weak fairness, EveryRequestAnswered / AllWorkersReturn for 1-2 workers and tasks with 0-3 partitions of which some fail, and rejects the no-notify mutant. Every request history TLC emits over 17 request classes (12 of them failing or refused statements) for 1-2 clients is replayed with 1 and 2 worker threads: each call must return within the deadline, failing requests must yield an error value, no database thread may panic, and a canary (query, ingest, periodic force_flush) must be served after every request. The sequential history replays of LocustStore.tla contribute the flush/compaction encoding branches.",
+             note="a panic observed in any database thread counts as a violation even when the caller still got an answer; KF1/KF2/KF3 are recorded known findings", ref="5 C11, 3.2"),
 }
 PENDING = ["C01","C02","C03","C04","C05","C06","C09","C10","C11","C12","C14","C15","C16","C17"]
 def main():
